@@ -79,8 +79,10 @@ func propPoint(t *rapid.T, f *fmtG) {
 	v := f.decode(b, true)
 	cls = append(cls, "verdict:"+v.why)
 	key := fmt.Sprintf("%s SetBytes(%x)", f.Name, b)
-	if kf := knownClassPt(f, v.why, true); kf != "" && rep.Known("C07", kf) {
-		rep.Excluded(test, "C07", kf)
+	if pv, kf := f.pinned(b, v, true); kf != "" {
+		// known finding: the library may reject (correct) or accept exactly the pinned value
+		cls = append(cls, "known_class:"+kf+":"+f.checkSetBytesPinned(t, b, pv))
+		rep.Case(test, key, true, cls...)
 		return
 	}
 
@@ -122,6 +124,30 @@ func (f *fmtG) checkSetBytes(t fataler, b []byte, v verdict, dirtyReceiver bool)
 	} else if n != 0 {
 		t.Fatalf("%s: SetBytes(%x) failed (%v) but reports %d consumed bytes", f.Name, b, err, n)
 	}
+}
+
+// checkSetBytesPinned: b is rejected by the predicate but falls in a listed known finding. Tolerated:
+// an error (n = 0), or acceptance with exactly the pinned verdict (value, consumed length, re-encoding).
+func (f *fmtG) checkSetBytesPinned(t fataler, b []byte, pv verdict) string {
+	lib := f.G.NewAff()
+	n, err := libSetBytes(lib, b)
+	if err != nil {
+		if n != 0 {
+			t.Fatalf("%s: SetBytes(%x) failed (%v) but reports %d consumed bytes", f.Name, b, err, n)
+		}
+		return "rejected"
+	}
+	if n != pv.n {
+		t.Fatalf("%s: SetBytes(%x) [known-finding class %s] reports %d consumed bytes, format says %d", f.Name, b, pv.why, n, pv.n)
+	}
+	f.checkAccepted(t, "SetBytes ["+pv.why+"]", lib, b, pv)
+	if lib2 := f.G.NewAff(); reg.HasM(lib2, "Unmarshal") {
+		if err := libUnmarshal(lib2, b); err != nil {
+			t.Fatalf("%s: SetBytes accepts %x but Unmarshal fails: %v", f.Name, b, err)
+		}
+		f.checkAccepted(t, "Unmarshal ["+pv.why+"]", lib2, b, pv)
+	}
+	return "accepted_as_pinned"
 }
 
 // propValue: value -> Bytes/RawBytes/Marshal (compared with the format model) -> SetBytes/Unmarshal.
